@@ -66,10 +66,24 @@ func (t wType) String() string {
 var scalarIDs = []uint16{cqlspec.TInt, cqlspec.TVarchar, cqlspec.TBigint, cqlspec.TBlob, cqlspec.TBoolean, cqlspec.TDouble,
 	cqlspec.TFloat, cqlspec.TUUID, cqlspec.TTimestamp, cqlspec.TInet, cqlspec.TAscii, cqlspec.TSmallint, cqlspec.TTinyint}
 
+// extraScalars adds the types whose Go values the wire scenario does not compare (date,
+// time, decimal, varint, counter, timeuuid, duration): the byzantine scenario only needs
+// their bytes to reach the decoders.
+var extraScalars = false
+
+var extraScalarIDs = []uint16{cqlspec.TDate, cqlspec.TTime, cqlspec.TDecimal, cqlspec.TVarint, cqlspec.TCounter, cqlspec.TTimeUUID, cqlspec.TDuration}
+
 func genScalar(tp *kernel.Tape, proto int) wType {
 	n := len(scalarIDs)
 	if proto < 4 {
 		n -= 2 // smallint / tinyint exist from v4
+	}
+	if extraScalars && proto >= 4 && tp.Chance(1, 3) {
+		m := len(extraScalarIDs)
+		if proto < 5 {
+			m-- // duration
+		}
+		return wType{ID: extraScalarIDs[tp.Next(m)]}
 	}
 	return wType{ID: scalarIDs[tp.Next(n)]}
 }
@@ -220,6 +234,20 @@ func genValue(tp *kernel.Tape, t wType, proto int) (interface{}, []byte) {
 			raw = []byte(v4)
 		}
 		return ip.String(), cqlspec.EncInet(raw)
+	case cqlspec.TDate:
+		return nil, [][]byte{{0x80, 0, 0, 0}, {0x80, 0, 0x40, 0}, {0, 0, 0, 0}}[tp.Next(3)]
+	case cqlspec.TTime, cqlspec.TCounter:
+		return nil, cqlspec.EncBigint([]int64{0, 1, 86399999999999}[tp.Next(3)])
+	case cqlspec.TDecimal:
+		return nil, [][]byte{{0, 0, 0, 2, 0x30, 0x39}, {0, 0, 0, 0, 0}, {0xff, 0xff, 0xff, 0xff, 0x80}}[tp.Next(3)]
+	case cqlspec.TVarint:
+		return nil, [][]byte{{0}, {0x7f}, {0x80, 0, 0}, {1, 2, 3, 4, 5, 6, 7, 8, 9}}[tp.Next(4)]
+	case cqlspec.TTimeUUID:
+		b := make([]byte, 16)
+		b[6], b[8] = 0x10, 0x80
+		return nil, b
+	case cqlspec.TDuration:
+		return nil, [][]byte{{0, 0, 0}, {2, 4, 6}, {0xc1, 0x00, 0x02, 0x04}}[tp.Next(3)]
 	case cqlspec.TList, cqlspec.TSet:
 		n := tp.Next(4)
 		et := t.Elems[0]
@@ -235,7 +263,7 @@ func genValue(tp *kernel.Tape, t wType, proto int) (interface{}, []byte) {
 				}
 				seen[string(b)] = true
 			}
-			sl = reflect.Append(sl, reflect.ValueOf(v))
+			sl = reflect.Append(sl, valueOr(v, gt))
 			cells = append(cells, cqlspec.Cell{Bytes: b})
 		}
 		return sl.Interface(), cqlspec.EncList(proto, cells)
@@ -252,7 +280,7 @@ func genValue(tp *kernel.Tape, t wType, proto int) (interface{}, []byte) {
 			}
 			seen[string(kb)] = true
 			vv, vb := genValue(tp, vt, proto)
-			m.SetMapIndex(reflect.ValueOf(kv), reflect.ValueOf(vv))
+			m.SetMapIndex(reflect.ValueOf(kv), valueOr(vv, goTypeOf(vt)))
 			cells = append(cells, cqlspec.Cell{Bytes: kb}, cqlspec.Cell{Bytes: vb})
 		}
 		return m.Interface(), cqlspec.EncMap(proto, cells)
@@ -309,6 +337,9 @@ func goTypeOf(t wType) reflect.Type {
 		return reflect.MapOf(goTypeOf(t.Elems[0]), goTypeOf(t.Elems[1]))
 	case cqlspec.TUDT:
 		return reflect.TypeOf(map[string]interface{}{})
+	case cqlspec.TDate, cqlspec.TTime, cqlspec.TDecimal, cqlspec.TVarint, cqlspec.TCounter, cqlspec.TTimeUUID, cqlspec.TDuration:
+		// values of these are never compared (byzantine scenario only)
+		return reflect.TypeOf((*interface{})(nil)).Elem()
 	}
 	panic("goTypeOf: " + t.String())
 }
@@ -438,4 +469,11 @@ func sameTypeInfo(ti gocql.TypeInfo, t wType) string {
 		}
 	}
 	return ""
+}
+
+func valueOr(v interface{}, t reflect.Type) reflect.Value {
+	if v == nil {
+		return reflect.Zero(t)
+	}
+	return reflect.ValueOf(v)
 }
